@@ -22,7 +22,7 @@ RULE = ("Limits: forms from the C01 generator (0-6 parts) x max parts in {n-1, n
         "then only CRs, CR then only LFs, CR in the middle then LF at the end, dashes only} x 0.2-2 MB (thorough 8 MB) x chunk sizes {1000, 4096, 65536} through the "
         "sync and async helpers with a recording decoder subclass and a byte-counting sink. Non-trivial = a limit exactly at or one off the total, or a bound case; "
         "distinct = (form, limits, chunk size, path).")
-RULE += ' Also: two forms with the same boundary parsed at the same time under different limits (nested sync parses, two async tasks); empty chunks anywhere in the chunk list, a caller-supplied sink class whose fresh instances are falsy (has __len__), decoder-state isolation after a 413.'
+RULE += ' Also: two forms with the same boundary parsed at the same time under different limits (nested sync parses, two async tasks); empty chunks anywhere in the chunk list, a caller-supplied sink class whose fresh instances are falsy (has __len__), decoder-state isolation after a 413. The awrite of the file sink suspends twice per call; at every write the file bytes already taken from the request minus those written stay within the same bound.'
 ASSUMPTIONS = [
     "the bound is checked at quiescent points (NEED_DATA returned, i.e. between chunks) and at chunk borders, not in the middle of processing one chunk",
     "part header sections and the preamble are small in the workload (the statement's bound is about part contents)",
@@ -59,15 +59,25 @@ def install_hook():
 class Sink:
     """file_factory: counts the bytes handed over so far"""
     written = 0
+    pulled = None   # callable -> file-content bytes the parser has taken from the request so far
+    lag_at_write = 0
 
     def __init__(self, filename, headers):
         self.filename = filename
         self.headers = headers
 
     def write(self, data):
+        if Sink.pulled is not None:
+            Sink.lag_at_write = max(Sink.lag_at_write, Sink.pulled() - Sink.written)
         Sink.written += len(data)
 
     async def awrite(self, data):
+        # a real sink writes in a thread pool: the event loop runs other tasks (and whatever the parser scheduled) meanwhile
+        import asyncio
+        await asyncio.sleep(0)
+        await asyncio.sleep(0)
+        if Sink.pulled is not None:
+            Sink.lag_at_write = max(Sink.lag_at_write, Sink.pulled() - Sink.written)
         Sink.written += len(data)
 
     def seek(self, off):
@@ -290,8 +300,12 @@ def bound_case(ctx, kind, size, cs, isfile, mode, limit=None):
     lag = {"max": 0}
     case = {"content": kind, "size": size, "chunk": cs, "part": "file" if isfile else "field", "mode": mode, "limit": limit}
 
+    Sink.lag_at_write = 0
+    Sink.pulled = lambda: max(0, min(min(len(body), (lag.get("asked", -1) + 1) * cs), cend) - cstart)
+
     def before_chunk(i):
         # everything before chunk i has been fed and processed
+        lag["asked"] = i  # ... and chunk i is being taken from the request now
         fed[0] = min(len(body), i * cs)
         fed_content = max(0, min(fed[0], cend) - cstart)
         if isfile:
@@ -308,7 +322,11 @@ def bound_case(ctx, kind, size, cs, isfile, mode, limit=None):
     except Exception as e:
         ctx.violation(f"bound|exception|{type(e).__name__}", case, repr(e))
         return
+    Sink.pulled = None
     ctx.mon("buffer-bound(hook)", HOOK["evals"] - evals0)
+    if isfile and Sink.lag_at_write > bound:
+        ctx.violation(f"taken-from-the-request-but-not-yet-written|{kind}|{mode}", case,
+                      f"when the sink was written to, {Sink.lag_at_write} file bytes had been taken from the request and not yet handed over; bound {bound}")
     if HOOK["max_excess"] > 0:
         ctx.violation(f"buffer-exceeds-bound|{kind}|{'file' if isfile else 'field'}", case,
                       f"decoder kept {HOOK['worst']} bytes at a quiescent point; bound {bound} (chunk {cs} + delimiter {delim} + 8)")
